@@ -56,7 +56,12 @@ RULE = ('(a) isolation: generated programs over list / rows / tuple-holding-list
         '(b) histories: Hypothesis state machine, <= 30 steps over one process-wide state, rules define / evaluate / re-evaluate / '
         'transform (simplify, close, inline, unroll_for, unroll_while, elim_iter, split) / fresh-or-shared-alternate '
         'interpreter / noise (stochastic, 700+ bit, REAL, gmpy2 ambient context) / set_default_interpreter / caller mutates an '
-        'old result; programs from progen with and without captured module-level lists, rows and tuples (read-only and '
+        'old result / the caller writes to every list of a returned value right away / context sweeps (the same function and '
+        'arguments under float and fixed-point contexts of several precisions and least digits in a drawn order, then the original '
+        'triple again) / direct roundings of non-dyadic rationals under fixed-point contexts; a first evaluation that disagrees with '
+        'the reference is re-run in a brand-new process to tell history dependence from a semantic disagreement; programs bind, '
+        'store into and return range / zip / enumerate / slice / comprehension / constant-literal lists; '
+        'programs from progen with and without captured module-level lists, rows and tuples (read-only and '
         'alias-mutating profiles); non-trivial = history with >= 1 transformation and >= 2 evaluations of one triple separated by '
         'other evaluations. (c) schedules: 2-3 threads x 2-4 tasks on shared Function objects with different contexts, '
         'Hypothesis-drawn quanta of line events (any / hot-code only); non-trivial = >= 3 switches while the pre-empted thread is '
@@ -245,7 +250,7 @@ def gmp_state():
     return (g.precision, g.round, g.emin, g.emax, g.subnormalize, g.trap_inexact, g.trap_underflow, g.trap_overflow, g.trap_divzero)
 
 
-def call_impl(fn, args, ctx_text, seconds=20):
+def call_impl(fn, args, ctx_text, seconds=10):
     """('value', den, raw_result, leak) | ('raise', TypeName, msg, leak) | ('timeout',)
     leak: None, or (before, after) when the call changed the caller's ambient gmpy2 context."""
     g0 = gmp_state()
@@ -466,6 +471,8 @@ def apply_strategy(f, name):
     raise ValueError(name)
 
 
+PRISTINE_BUDGET = 2
+
 NOISE_KINDS = ['stochastic-ops', 'hiprec-ops', 'real-ops', 'gmpy2-ambient', 'fpy-under-stochastic', 'tiny-ctx-ops',
                'round-rationals-fixed', 'round-rationals-fixed']
 # 'gmpy2-ambient-narrow' (the Python caller narrows gmpy2's ambient exponent range) is executable but NOT drawn: fpy2's
@@ -491,6 +498,8 @@ class History:
         self.same_name_pairs = False
         self.alt_rt = BytecodeInterpreter()
         self.failed_buckets = set()
+        self.pristine_left = PRISTINE_BUDGET
+        self.diagnosed = {}     # (mi, vi) -> bucket of its first disagreement
         import gmpy2
         self._gmp_saved = gmpy2.get_context().copy()
         # step 0 of every history: a fresh default interpreter (the history quantified over starts here)
@@ -547,7 +556,9 @@ class History:
         entry = self.model.get(key)
         got = call_impl(self._fn(mi, vi, interp), dec_args(args_enc), ctx_text)
         if got[0] == 'timeout':
+            # inconclusive (time is never an oracle); the triple leaves the rotation so that it costs one guard interval only
             res.skip('b:timeout-inconclusive')
+            self.triples = [t for t in self.triples if t[:4] != key]
             return
         self.n_evals += 1
         outcome = got[:2]
@@ -592,7 +603,12 @@ class History:
             self.same_name_pairs = True
         entry['evals'].append(self.n_evals - 1)
         if outcome != entry['expected']:
-            self.diagnose(mi, vi, args_enc, ctx_text, interp, entry, outcome, first)
+            known = self.diagnosed.get((mi, vi))
+            if known is not None and not first:
+                # same function disagreeing again in this history: same root cause, no second diagnosis
+                self.fail(known, expected=entry['expected'], got=outcome, note='(bucket of the first disagreement of this function)')
+            else:
+                self.diagnose(mi, vi, args_enc, ctx_text, interp, entry, outcome, first)
 
     def diagnose(self, mi, vi, args_enc, ctx_text, interp, entry, outcome, first):
         """Root-cause bucket of a disagreement with the model."""
@@ -606,6 +622,9 @@ class History:
             kind = 'wrong-value'
         f = self.modules[mi]['variants'][vi][1].with_rt(BytecodeInterpreter())
         fresh = call_impl(f, dec_args(args_enc), ctx_text)
+        if fresh[0] == 'timeout':
+            self.res.skip('b:timeout-inconclusive')
+            return
         fresh_ok = fresh[:2] == exp
         # does the function's own cache entry accumulate state from call to call?  (a few calls: one step of
         # accumulation can be invisible after rounding)
@@ -637,7 +656,14 @@ class History:
             # the very first evaluation of the triple disagrees with the reference, and so does (identically) a fresh
             # interpreter: a semantic disagreement (C04's business), not a dependence on history.  From now on the
             # triple is held to its first evaluation.
-            pristine = pristine_eval(m['src'], 'main', args_enc, ctx_text) if vi == 0 else repr(outcome)
+            # at most PRISTINE_BUDGET brand-new processes per history (a count, not a time limit)
+            if vi != 0:
+                pristine = repr(outcome)
+            elif self.pristine_left > 0:
+                self.pristine_left -= 1
+                pristine = pristine_eval(m['src'], 'main', args_enc, ctx_text)
+            else:
+                pristine = None
             if pristine == repr(exp) and pristine != repr(outcome):
                 # a brand-new process agrees with the reference: what this process evaluated before is what differs
                 self.fail(f'process-state/first-eval-differs-from-pristine-process/{kind}', expected=exp, got=outcome,
@@ -657,6 +683,7 @@ class History:
             bucket = f'first-eval/differs-from-reference/{kind}'
         else:
             bucket = f'history/re-evaluation-differs/{kind}'
+        self.diagnosed.setdefault((mi, vi), bucket)
         self.fail(bucket, expected=exp, got=outcome,
                   note=f'model source={entry["source"]}; interp={interp}; fresh interpreter gives the model value: {fresh_ok}; '
                        f'evaluations of this triple before: {len(entry["evals"]) - 1}')
@@ -697,6 +724,8 @@ class History:
         r = random.Random(seed)
         ctxs = list(SWEEP_CTXS)
         r.shuffle(ctxs)
+        if 'while' in self.modules[mi]['features']:
+            ctxs = [c for c in ctxs if c not in COUNTER_UNSAFE]
         if self.count:
             self.res.cls('b:context-sweeps')
         for c in ctxs[:n or r.choice([3, 5, 7])]:
@@ -872,7 +901,10 @@ SWEEP_CTXS = [
     'fp.MPFloatContext(2, fp.RM.RTZ)', 'fp.MPFloatContext(11, fp.RM.RNE)', 'fp.MPFloatContext(200, fp.RM.RAZ)',
     'fp.IEEEContext(5, 16, fp.RM.RNE)', 'fp.FP32', 'fp.MPSFloatContext(8, -10, fp.RM.RNE)', 'fp.INTEGER', 'fp.REAL', None,
 ]
-HIST_CTXS = list(progen.CALLER_CTXS) + [c for c in SWEEP_CTXS if c is not None and 'Fixed' in c]
+# contexts in which small loop counters are not exact: never used for programs with a `while` loop (progen guarantees
+# termination only under counter-safe caller contexts)
+COUNTER_UNSAFE = {'fp.MPFixedContext(2, fp.RM.RTP)', 'fp.MPFloatContext(2, fp.RM.RTZ)'}
+HIST_CTXS = list(progen.CALLER_CTXS) + [c for c in SWEEP_CTXS if c is not None and 'Fixed' in c and c not in COUNTER_UNSAFE]
 
 HIST_KINDS = ['general', 'small', 'cap-read', 'cap-mutate', 'template', 'template', 'iso', 'iso']
 
